@@ -94,6 +94,7 @@ func vCover(label string)     {}
 func vConcrete(x int64) int64 { return x }
 func vIsEngine() bool         { return false }
 func vOut(s string)           { fmt.Fprintf(vStdout, "VOUT %q\n", s) }
+func vSame(key, val string)    { fmt.Fprintf(vStdout, "VSAME %q %q\n", key, val) }
 func vKnown(key string)       { vKnownKey = key }
 func vParam(name string, def int) int {
 	if v, ok := vReplay.Params[name]; ok {
